@@ -130,11 +130,13 @@ package crl
 // (as produced by x509.ParseRevocationList).
 //@ interface func (crl.Fetcher).Fetch(f, ctx, url)
 //@   logged
+//@   maypanic
 //@   ensures err == nil ==> result != nil && BundleShape(result)
 //@   ensures err != nil ==> ExternalDyn(typeof(err)) || true
 
 // stmt C05 (and C12 shape): per-distribution-point evidence, all points consulted, first failure decides
 //@ func CertCheckStatus(ctx, cert, issuer, opts)
+//@   maypanic
 //@   props C05 C06 C12
 //@   calls Fetcher.Fetch
 //@   requires issuer != nil
